@@ -349,8 +349,31 @@ def undefined_read_in_effect_condition():
     return pr
 
 
+def conditional_definition(flag0):
+    """a numeric fluent WITHOUT initial value assigned only by a CONDITIONAL effect and read by a later action: the fluent is defined after the
+    assigning action only if the effect's condition held"""
+    pr = Problem(f"conditional_definition_{flag0}")
+    x, flag, done = Fluent("x", IntType()), Fluent("flag", BoolType()), Fluent("done", BoolType())
+    pr.add_fluent(x)                                    # no initial value
+    pr.add_fluent(flag, default_initial_value=flag0)
+    pr.add_fluent(done, default_initial_value=False)
+    cond_set = InstantaneousAction("cond_set")
+    cond_set.add_effect(x, 2, flag)
+    set_flag = InstantaneousAction("set_flag")
+    set_flag.add_effect(flag, True)
+    need = InstantaneousAction("need")
+    need.add_precondition(GE(x, 0))
+    need.add_effect(done, True)
+    for a in (cond_set, set_flag, need):
+        pr.add_action(a)
+    pr.add_goal(done)
+    return pr
+
+
 def crafted_cases():
     out = [("crafted:undefined_read_in_effect_condition", (CK.UNDEFINED_INITIAL_NUMERIC_REMOVING,), undefined_read_in_effect_condition()),
+           ("crafted:conditional_definition", (CK.UNDEFINED_INITIAL_NUMERIC_REMOVING,), conditional_definition(False)),
+           ("crafted:conditional_definition", (CK.UNDEFINED_INITIAL_NUMERIC_REMOVING,), conditional_definition(True)),
            ("crafted:half_bounded_types", (CK.BOUNDED_TYPES_REMOVING,), half_bounded_types()),
            ("crafted:half_bounded_types+grounding", (CK.BOUNDED_TYPES_REMOVING, CK.GROUNDING), half_bounded_types()),
            ("crafted:bounded_parametrized", (CK.BOUNDED_TYPES_REMOVING,), bounded_parametrized()),
